@@ -1,18 +1,22 @@
-import Vflow.Model.V9
+import Vflow.Model.Ipfix
 import Vflow.Proofs.RdLemmas
-import Vflow.Proofs.EqnsV9
+import Vflow.Proofs.EqnsIpfix
 /-!
-# C02 (model part) for the NetFlow v9 model: fuel, record bound
+# C02 (model part) for the IPFIX model: fuel, record bound
 
-Invariant threaded through every function: `cnt + rem.length` is constant and `cnt` never decreases
-(`Adv`).  A successful template parse consumes ≥ 4 octets, a kept record ≥ 1 (the `zeroRec` rule),
-every `decodeSet` that does not fail fatally consumes ≥ 4 octets.
+Same invariant as for NetFlow v9 (`Adv`: `cnt + rem.length` constant, `cnt` monotone).  A successful
+template parse consumes ≥ 4 octets, a kept record ≥ 1 (the `zeroRec` rule), every `decodeSet` that
+does not fail with `short` consumes ≥ 4 octets.
 -/
-namespace Vflow.V9
+namespace Vflow.Ipfix
 open Vflow
 
+theorem adv_rU8 {r r' : Rd} {v : Nat} (h : r.rU8 = some (v, r')) :
+    Adv r r' ∧ r'.cnt = r.cnt + 1 := by
+  have := rU8_tot h; simp only [Rd.tot] at this; exact ⟨⟨this.1, by omega⟩, this.2⟩
+
 theorem readSpec_adv {r r' : Rd} {res : Except Err Spec} (h : readSpec r = (res, r')) :
-    Adv r r' ∧ ∀ s, res = .ok s → r'.cnt = r.cnt + 4 := by
+    Adv r r' ∧ ∀ s, res = .ok s → r.cnt + 4 ≤ r'.cnt := by
   simp only [readSpec] at h
   split at h
   · simp at h; rw [← h.2, ← h.1]; exact ⟨Adv.refl _, by intro s hs; simp at hs⟩
@@ -22,12 +26,19 @@ theorem readSpec_adv {r r' : Rd} {res : Except Err Spec} (h : readSpec r = (res,
     · simp at h; rw [← h.2, ← h.1]; exact ⟨t1.1, by intro s hs; simp at hs⟩
     · rename_i len r2 h2
       have t2 := adv_rU16 h2
-      simp at h; rw [← h.2]
-      exact ⟨t1.1.trans t2.1, by intro _ _; omega⟩
+      split at h
+      · split at h
+        · simp at h; rw [← h.2, ← h.1]; exact ⟨t1.1.trans t2.1, by intro s hs; simp at hs⟩
+        · rename_i ent r3 h3
+          have t3 := adv_rU32 h3
+          simp at h; rw [← h.2]
+          exact ⟨(t1.1.trans t2.1).trans t3.1, by intro _ _; omega⟩
+      · simp at h; rw [← h.2]
+        exact ⟨t1.1.trans t2.1, by intro _ _; omega⟩
 
 theorem readSpecs_adv : ∀ (n : Nat) (r : Rd) (acc : List Spec) (res : Except Err (List Spec)) (r' : Rd),
     readSpecs n r acc = (res, r') →
-    Adv r r' ∧ ∀ l, res = .ok l → r'.cnt = r.cnt + 4 * n ∧ l.length = acc.length + n := by
+    Adv r r' ∧ ∀ l, res = .ok l → r.cnt + 4 * n ≤ r'.cnt ∧ l.length = acc.length + n := by
   intro n
   induction n with
   | zero =>
@@ -88,11 +99,11 @@ theorem parseOptTpl_adv {r r' : Rd} {res : Except Err Template} (h : parseOptTpl
     have t1 := adv_rU16 h1
     split at h
     · simp at h; rw [← h.2, ← h.1]; exact ⟨t1.1, by intro t ht; simp at ht⟩
-    · rename_i sl r2 h2
+    · rename_i n r2 h2
       have t2 := adv_rU16 h2
       split at h
       · simp at h; rw [← h.2, ← h.1]; exact ⟨t1.1.trans t2.1, by intro t ht; simp at ht⟩
-      · rename_i ol r3 h3
+      · rename_i sc r3 h3
         have t3 := adv_rU16 h3
         split at h
         · rename_i e r4 h4
@@ -116,44 +127,89 @@ theorem parseOptTpl_adv {r r' : Rd} {res : Except Err Template} (h : parseOptTpl
             simp only [nfields, List.length_nil] at *
             omega
 
+theorem dataLen_adv {r r' : Rd} {sl t : Nat} {res : Except Err Nat} (h : dataLen r sl t = (res, r')) :
+    Adv r r' ∧ ∀ e, res = .error e → e = .short := by
+  simp only [dataLen] at h
+  split at h
+  · split at h
+    · simp at h; rw [← h.2, ← h.1]; exact ⟨Adv.refl _, by intro e he; simp at he; exact he.symm⟩
+    · rename_i l8 r1 h1
+      have t1 := adv_rU8 h1
+      split at h
+      · split at h
+        · simp at h; rw [← h.2, ← h.1]; exact ⟨t1.1, by intro e he; simp at he; exact he.symm⟩
+        · rename_i l r2 h2
+          simp at h; rw [← h.2, ← h.1]
+          exact ⟨t1.1.trans (adv_rU16 h2).1, by intro e he; simp at he⟩
+      · simp at h; rw [← h.2, ← h.1]; exact ⟨t1.1, by intro e he; simp at he⟩
+  · simp at h; rw [← h.2, ← h.1]; exact ⟨Adv.refl _, by intro e he; simp at he⟩
+
 theorem decFields_adv : ∀ (fs : List Spec) (r : Rd) (acc : Record) (res : Except Err Record) (r' : Rd),
     decFields fs r acc = (res, r') →
-    Adv r r' ∧ ∀ l, res = .ok l → l.length = acc.length + fs.length := by
+    Adv r r' ∧ (∀ l, res = .ok l → l.length = acc.length + fs.length) ∧
+      (∀ e, res = .error e → e = .short ∨ e = .unknownElem) := by
   intro fs
   induction fs with
   | nil =>
     intro r acc res r' h
     simp [decFields_nil] at h; rw [← h.2, ← h.1]
-    exact ⟨Adv.refl _, by intro l hl; simp at hl; subst hl; simp⟩
+    exact ⟨Adv.refl _, by intro l hl; simp at hl; subst hl; simp, by intro e he; simp at he⟩
   | cons f fs ih =>
     intro r acc res r' h
     rw [decFields_cons] at h
-    split at h
-    · simp at h; rw [← h.2, ← h.1]; exact ⟨Adv.refl _, by intro l hl; simp at hl⟩
-    · rename_i b r1 h1
-      have t1 := adv_readN h1
-      generalize hle : lookupElem 0 f.id = le at h
-      cases le with
-      | none => simp at h; rw [← h.2, ← h.1]; exact ⟨t1.1, by intro l hl; simp at hl⟩
-      | some p =>
-        have t2 := ih _ _ _ _ h
-        refine ⟨t1.1.trans t2.1, ?_⟩
-        intro l hl
-        have := t2.2 l hl
-        simp only [List.length_append, List.length_cons, List.length_nil] at *
-        omega
+    generalize hle : lookupElem f.ent f.id = le at h
+    cases le with
+    | none =>
+      simp at h; rw [← h.2, ← h.1]
+      exact ⟨Adv.refl _, by intro l hl; simp at hl, by intro e he; simp at he; exact Or.inr he.symm⟩
+    | some p =>
+      obtain ⟨fid, t⟩ := p
+      simp only at h
+      generalize hdl : dataLen r f.len t = dl at h
+      obtain ⟨dres, r1⟩ := dl
+      have t1 := dataLen_adv hdl
+      cases dres with
+      | error e1 =>
+        simp at h; rw [← h.2, ← h.1]
+        exact ⟨t1.1, by intro l hl; simp at hl,
+          by intro e he; simp at he; subst he; exact Or.inl (t1.2 e1 rfl)⟩
+      | ok n =>
+        simp only at h
+        split at h
+        · simp at h; rw [← h.2, ← h.1]
+          exact ⟨t1.1, by intro l hl; simp at hl, by intro e he; simp at he; exact Or.inl he.symm⟩
+        · rename_i b r2 h2
+          have t2 := adv_readN h2
+          have t3 := ih _ _ _ _ h
+          refine ⟨(t1.1.trans t2.1).trans t3.1, ?_, t3.2.2⟩
+          intro l hl
+          have := t3.2.1 l hl
+          simp only [List.length_append, List.length_cons, List.length_nil] at *
+          omega
 
 theorem decodeData_adv {tr : Template} {r r' : Rd} {res : Except Err Record}
     (h : decodeData tr r = (res, r')) :
-    Adv r r' ∧ ∀ l, res = .ok l → l.length = nfields tr := by
-  have := decFields_adv _ _ _ _ _ h
-  refine ⟨this.1, ?_⟩
-  intro l hl
-  have := this.2 l hl
-  simpa [nfields] using this
-
-
-/-! errors of the parsing functions are never `fuel` -/
+    Adv r r' ∧ (∀ l, res = .ok l → l.length = nfields tr) ∧ res ≠ .error .fuel := by
+  simp only [decodeData] at h
+  generalize hd : decFields (tr.scope ++ tr.fields) r [] = dr at h
+  obtain ⟨res1, r1⟩ := dr
+  have t := decFields_adv _ _ _ _ _ hd
+  cases res1 with
+  | error e =>
+    simp at h; rw [← h.2, ← h.1]
+    refine ⟨t.1, by intro l hl; simp at hl, ?_⟩
+    intro hx; simp at hx; subst hx
+    have := t.2.2 _ rfl; simp at this
+  | ok fs =>
+    simp only at h
+    split at h
+    · simp at h; rw [← h.2, ← h.1]
+      exact ⟨t.1, by intro l hl; simp at hl, by simp⟩
+    · simp at h; rw [← h.2, ← h.1]
+      refine ⟨t.1, ?_, by simp⟩
+      intro l hl; simp at hl; subst hl
+      have := t.2.1 _ rfl
+      simpa [nfields] using this
 
 theorem readSpec_err {r r' : Rd} {e : Err} (h : readSpec r = (.error e, r')) : e = .short := by
   simp only [readSpec] at h
@@ -161,7 +217,11 @@ theorem readSpec_err {r r' : Rd} {e : Err} (h : readSpec r = (.error e, r')) : e
   · simp at h; exact h.1.symm
   · split at h
     · simp at h; exact h.1.symm
-    · simp at h
+    · split at h
+      · split at h
+        · simp at h; exact h.1.symm
+        · simp at h
+      · simp at h
 
 theorem readSpecs_err : ∀ (n : Nat) (r : Rd) (acc : List Spec) (e : Err) (r' : Rd),
     readSpecs n r acc = (.error e, r') → e = .short := by
@@ -203,21 +263,6 @@ theorem parseOptTpl_err {r r' : Rd} {e : Err} (h : parseOptTpl r = (.error e, r'
             simp at h; rw [← h.1]; exact readSpecs_err _ _ _ _ _ h5
           · simp at h
 
-theorem decFields_err : ∀ (fs : List Spec) (r : Rd) (acc : Record) (e : Err) (r' : Rd),
-    decFields fs r acc = (.error e, r') → e = .short ∨ e = .unknownElem := by
-  intro fs
-  induction fs with
-  | nil => intro r acc e r' h; simp [decFields_nil] at h
-  | cons f fs ih =>
-    intro r acc e r' h
-    rw [decFields_cons] at h
-    split at h
-    · simp at h; exact Or.inl h.1.symm
-    · generalize hle : lookupElem 0 f.id = le at h
-      cases le with
-      | none => simp at h; exact Or.inr h.1.symm
-      | some p => exact ih _ _ _ _ h
-
 /-- what every function from `setLoop` up preserves: the reader advanced inside the same buffer and
 every record added was paid for by at least one octet -/
 def Step (st st' : St) : Prop :=
@@ -234,79 +279,82 @@ theorem Step.of_adv {st st' : St} (h : Adv st.r st'.r) (hr : st'.recs = st.recs)
 
 /-- **fuel lemma for the record loop**: with more fuel than octets left the loop never reports
 `fuel`, and it is a `Step` -/
-theorem setLoop_fuel (ctx : Ctx) : ∀ (fuel : Nat) (st st' : St) (e : Option Err),
-    st.r.rem.length < fuel → setLoop ctx fuel st = (st', e) → e ≠ some .fuel ∧ Step st st' := by
+theorem setLoop_fuel (ctx : Ctx) : ∀ (fuel : Nat) (st st' : St) (e : Option Err) (d : Bool),
+    st.r.rem.length < fuel → setLoop ctx fuel st = (st', e, d) → e ≠ some .fuel ∧ Step st st' := by
   intro fuel
   induction fuel with
-  | zero => intro st st' e hlt; omega
+  | zero => intro st st' e d hlt; omega
   | succ n ih =>
-    intro st st' e hlt h
+    intro st st' e d hlt h
     simp only [setLoop] at h
     split at h
     · split at h
-      · -- template flowset
-        generalize hp : (if ctx.setId = 0 then parseTpl st.r else parseOptTpl st.r) = pr at h
-        obtain ⟨res, r'⟩ := pr
-        have ht : Adv st.r r' ∧ ∀ t, res = .ok t → st.r.cnt + 4 + 4 * nfields t ≤ r'.cnt := by
-          by_cases h0 : ctx.setId = 0
-          · simp only [h0, if_true] at hp; exact parseTpl_adv hp
-          · simp only [h0, if_false] at hp; exact parseOptTpl_adv hp
-        cases res with
-        | error x =>
-          simp at h; rw [← h.1, ← h.2]
-          refine ⟨?_, Step.of_adv ht.1 rfl⟩
-          -- the error of a template parse is `short`
-          intro hx; simp at hx; subst hx
-          by_cases h0 : ctx.setId = 0
-          · simp only [h0, if_true] at hp; exact absurd (parseTpl_err hp) (by simp)
-          · simp only [h0, if_false] at hp; exact absurd (parseOptTpl_err hp) (by simp)
-        | ok t =>
-          simp only at h
-          have hc := ht.2 t rfl
-          have ha := ht.1
-          have hl : r'.rem.length < n := by have := ha.1; omega
-          have := ih _ _ _ (by simpa using hl) h
-          refine ⟨this.1, Step.trans (Step.of_adv (st' := { st with r := r', cache := st.cache.insert ctx.addr t.tid t }) ha rfl) this.2⟩
-      · split at h
-        · simp at h; rw [← h.1, ← h.2]; exact ⟨by simp, Step.refl _⟩
-        · generalize hd : decodeData ctx.tr st.r = dr at h
-          obtain ⟨res, r'⟩ := dr
-          have ht := decodeData_adv hd
+      · -- template set
+        split at h
+        · simp at h; rw [← h.1, ← h.2.1]; exact ⟨by simp, Step.refl _⟩
+        · generalize hp : (if ctx.setId = 2 then parseTpl st.r else parseOptTpl st.r) = pr at h
+          obtain ⟨res, r'⟩ := pr
+          have ht : Adv st.r r' ∧ ∀ t, res = .ok t → st.r.cnt + 4 + 4 * nfields t ≤ r'.cnt := by
+            by_cases h0 : ctx.setId = 2
+            · simp only [h0, if_true] at hp; exact parseTpl_adv hp
+            · simp only [h0, if_false] at hp; exact parseOptTpl_adv hp
           cases res with
           | error x =>
-            simp at h; rw [← h.1, ← h.2]
+            simp at h; rw [← h.1, ← h.2.1]
             refine ⟨?_, Step.of_adv ht.1 rfl⟩
             intro hx; simp at hx; subst hx
-            have := decFields_err _ _ _ _ _ hd
-            simp at this
-          | ok fs =>
+            by_cases h0 : ctx.setId = 2
+            · simp only [h0, if_true] at hp; exact absurd (parseTpl_err hp) (by simp)
+            · simp only [h0, if_false] at hp; exact absurd (parseOptTpl_err hp) (by simp)
+          | ok t =>
             simp only at h
-            split at h
-            · simp at h; rw [← h.1, ← h.2]; exact ⟨by simp, Step.of_adv ht.1 rfl⟩
-            · rename_i hne
-              have ha := ht.1
-              have hl : r'.rem.length < n := by have := ha.1; have := ha.2; omega
-              have := ih _ _ _ (by simpa using hl) h
-              refine ⟨this.1, Step.trans ?_ this.2⟩
-              refine ⟨ha, ?_⟩
-              have := ha.1; have := ha.2
-              simp only [List.length_append, List.length_singleton]
-              omega
-    · simp at h; rw [← h.1, ← h.2]; exact ⟨by simp, Step.refl _⟩
+            have hc := ht.2 t rfl
+            have ha := ht.1
+            have hl : r'.rem.length < n := by have := ha.1; omega
+            have := ih _ _ _ _ (by simpa using hl) h
+            refine ⟨this.1, Step.trans (Step.of_adv (st' := { st with r := r', cache := st.cache.insert ctx.addr t.tid t }) ha rfl) this.2⟩
+      · split at h
+        · simp at h; rw [← h.1, ← h.2.1]; exact ⟨by simp, Step.refl _⟩
+        · split at h
+          · simp at h; rw [← h.1, ← h.2.1]; exact ⟨by simp, Step.refl _⟩
+          · generalize hd : decodeData ctx.tr st.r = dr at h
+            obtain ⟨res, r'⟩ := dr
+            have ht := decodeData_adv hd
+            cases res with
+            | error x =>
+              simp only at h
+              have hx : x ≠ .fuel := by intro hx; subst hx; exact ht.2.2 rfl
+              split at h
+              · simp at h; rw [← h.1, ← h.2.1]
+                exact ⟨by simpa using hx, Step.of_adv ht.1 rfl⟩
+              · simp at h; rw [← h.1, ← h.2.1]
+                exact ⟨by simpa using hx, Step.of_adv ht.1 rfl⟩
+            | ok fs =>
+              simp only at h
+              split at h
+              · simp at h; rw [← h.1, ← h.2.1]; exact ⟨by simp, Step.of_adv ht.1 rfl⟩
+              · rename_i hne
+                have ha := ht.1
+                have hl : r'.rem.length < n := by have := ha.1; have := ha.2; omega
+                have := ih _ _ _ _ (by simpa using hl) h
+                refine ⟨this.1, Step.trans ?_ this.2⟩
+                refine ⟨ha, ?_⟩
+                have := ha.1; have := ha.2
+                simp only [List.length_append, List.length_singleton]
+                omega
+    · simp at h; rw [← h.1, ← h.2.1]; exact ⟨by simp, Step.refl _⟩
 
 theorem skipRest_step {ctx : Ctx} {st st' : St} {e e' : Option Err}
     (h : skipRest ctx st e = (st', e')) :
     (e ≠ some .fuel → e' ≠ some .fuel) ∧ Step st st' ∧ st'.recs = st.recs ∧ st'.cache = st.cache := by
   simp only [skipRest] at h
   split at h
-  · simp at h; rw [← h.1, ← h.2]; exact ⟨id, Step.refl _, rfl, rfl⟩
   · split at h
-    · split at h
-      · simp at h; rw [← h.1, ← h.2]; exact ⟨fun _ => by simp, Step.refl _, rfl, rfl⟩
-      · rename_i b r' hr
-        simp at h; rw [← h.1, ← h.2]
-        exact ⟨id, Step.of_adv (adv_readN hr).1 rfl, rfl, rfl⟩
-    · simp at h; rw [← h.1, ← h.2]; exact ⟨id, Step.refl _, rfl, rfl⟩
+    · simp at h; rw [← h.1, ← h.2]; exact ⟨fun _ => by simp, Step.refl _, rfl, rfl⟩
+    · rename_i b r' hr
+      simp at h; rw [← h.1, ← h.2]
+      exact ⟨id, Step.of_adv (adv_readN hr).1 rfl, rfl, rfl⟩
+  · simp at h; rw [← h.1, ← h.2]; exact ⟨id, Step.refl _, rfl, rfl⟩
 
 theorem setBody_fuel {addr : Bytes} {sid len start fuel : Nat} {st st' : St} {e : Option Err}
     (hlt : st.r.rem.length < fuel) (h : setBody addr sid len start fuel st = (st', e)) :
@@ -316,7 +364,6 @@ theorem setBody_fuel {addr : Bytes} {sid len start fuel : Nat} {st st' : St} {e 
   · rename_i e0 he0
     have := skipRest_step h
     refine ⟨this.1 ?_, this.2.1⟩
-    -- the lookup error is `unknownTpl`
     simp only [lookupTpl] at he0
     split at he0
     · split at he0
@@ -324,10 +371,13 @@ theorem setBody_fuel {addr : Bytes} {sid len start fuel : Nat} {st st' : St} {e 
       · simp at he0; rw [← he0]; simp
     · simp at he0
   · generalize hl : setLoop _ fuel st = res at h
-    obtain ⟨st1, e1⟩ := res
-    have t1 := setLoop_fuel _ _ _ _ _ hlt hl
-    have t2 := skipRest_step h
-    exact ⟨t2.1 t1.1, t1.2.trans t2.2.1⟩
+    obtain ⟨st1, e1, d⟩ := res
+    have t1 := setLoop_fuel _ _ _ _ _ _ hlt hl
+    simp only at h
+    split at h
+    · simp at h; rw [← h.1, ← h.2]; exact t1
+    · have t2 := skipRest_step h
+      exact ⟨t2.1 t1.1, t1.2.trans t2.2.1⟩
 
 /-- `decodeSet` with more fuel than octets left: no `fuel`, a `Step`, and unless it failed with
 `short` it consumed the 4-octet set header -/
@@ -356,7 +406,7 @@ theorem decodeSet_fuel {addr : Bytes} {fuel : Nat} {st st' : St} {e : Option Err
         simp only at this
         omega
 
-/-- **fuel lemma for the flowset loop** -/
+/-- **fuel lemma for the set loop of `Decode`** -/
 theorem outer_fuel (addr : Bytes) : ∀ (fuel : Nat) (st : St) (errs : List Err) (st' : St)
     (e : Option Err) (errs' : List Err),
     st.r.rem.length < fuel → outer addr fuel st errs = (st', e, errs') →
@@ -415,14 +465,11 @@ theorem readHeader_adv {r r' : Rd} {h : Hdr} (hh : readHeader r = some (h, r')) 
           split at hh
           · simp at hh
           · rename_i _ r5 h5
-            split at hh
-            · simp at hh
-            · rename_i _ r6 h6
-              simp at hh; rw [← hh.2]
-              exact ((((((adv_rU16 h1).1.trans (adv_rU16 h2).1).trans (adv_rU32 h3).1).trans
-                (adv_rU32 h4).1).trans (adv_rU32 h5).1).trans (adv_rU32 h6).1)
+            simp at hh; rw [← hh.2]
+            exact (((((adv_rU16 h1).1.trans (adv_rU16 h2).1).trans (adv_rU32 h3).1).trans
+              (adv_rU32 h4).1).trans (adv_rU32 h5).1)
 
-/-- what `decode` returns, in terms of the final state of `outer` -/
+/-- termination with the supplied fuel and the record bound, for every cache, address, datagram -/
 theorem decode_fuel_records (c : Cache) (addr bs : Bytes) :
     (decode c addr bs).1 ≠ .error .fuel ∧ (recordsOf (decode c addr bs).1).length ≤ bs.length := by
   simp only [decode]
@@ -451,4 +498,4 @@ theorem decode_fuel_records (c : Cache) (addr bs : Bytes) :
         simp only [List.length_nil] at *
         omega
 
-end Vflow.V9
+end Vflow.Ipfix
